@@ -36,11 +36,21 @@ func restartFamily(c *Ctx, focus string) {
 	gcfg.ChunkFiles = focus == "C01"
 	prog := Generate(c.Plan, gcfg)
 	family := "generated"
-	sel := c.Plan.Draw(5)
+	sel := c.Plan.Draw(8)
 	if focus == "C01" && sel < 2 && c.Plan.Draw(2) == 0 {
 		sel = 4 // more generated programs (splits handing files to their chunks)
 	}
 	switch sel {
+	case 5:
+		// calls disabled per element of a mapped call, by flags made at run time
+		prog = templateMixedFlagsProg(c.Plan)
+		family = "mixedflags"
+	case 6:
+		prog = templateDisabledProg(c.Plan)
+		family = "disabled"
+	case 7:
+		prog = templatePerElementDisabledProg(c.Plan)
+		family = "per-element-disabled"
 	case 0, 1:
 		prog = templateNestedProg(c.Plan)
 		family = "nested"
@@ -344,4 +354,45 @@ func checkArgsAcrossAttempts(r *Run, twinArgs map[string]string, desc string) []
 		}
 	}
 	return out
+}
+
+// templatePerElementDisabledProg: a pipeline map-called over an array of structs that a
+// stage makes at run time; inside it a call is disabled per element by a flag of the
+// element, a second call consumes the first one's result, and a stage outside consumes the
+// merged results of all elements.
+func templatePerElementDisabledProg(plan *Tape) *Prog {
+	p := &Prog{}
+	intT, boolT := Ty{Base: "int"}, Ty{Base: "bool"}
+	ref := func(call string, path ...string) *Expr { return &Expr{Kind: ERef, Call: call, Path: path} }
+	self := func(path ...string) *Expr { return &Expr{Kind: ERef, Self: true, Path: path} }
+	p.Structs = []*StructDef{{Name: "ITEM", Fields: []Field{{"v", intT}, {"skip", boolT}}}}
+	itemT := Ty{Base: "ITEM"}
+	work := &StageDef{Name: "WORK", SrcKind: "comp", Ins: []Field{{"v", intT}}, Outs: []Field{{"y", intT}}}
+	if plan.Draw(2) == 0 {
+		work.Split = true
+		work.ChunkIns = []Field{{"c0", intT}}
+		work.ChunkOuts = []Field{{"part", intT}}
+	}
+	p.Stages = []*StageDef{
+		{Name: "SRC", SrcKind: "comp", Ins: []Field{{"n", intT}}, Outs: []Field{{"items", itemT.ArrayOf()}}},
+		work,
+		{Name: "LAST", SrcKind: "comp", Ins: []Field{{"y", intT}}, Outs: []Field{{"z", intT}}},
+		{Name: "USE", SrcKind: "comp", Ins: []Field{{"zs", intT.ArrayOf()}}, Outs: []Field{{"s", intT}}},
+	}
+	sub := &PipelineDef{Name: "SUB", Ins: []Field{{"item", itemT}}, Outs: []Field{{"z", intT}}}
+	sub.Calls = []*CallDef{
+		{Callee: "WORK", Id: "WORK", Binds: []Bind{{"v", self("item", "v"), false}}, Disabled: self("item", "skip")},
+		{Callee: "LAST", Id: "LAST", Binds: []Bind{{"y", ref("WORK", "y"), false}}},
+	}
+	sub.Ret = []Bind{{"z", ref("LAST", "z"), false}}
+	top := &PipelineDef{Name: "TOPE", Ins: []Field{{"n", intT}}, Outs: []Field{{"zs", intT.ArrayOf()}, {"s", intT}}}
+	top.Calls = []*CallDef{
+		{Callee: "SRC", Id: "SRC", Binds: []Bind{{"n", self("n"), false}}},
+		{Callee: "SUB", Id: "SUB", Mapped: true, Binds: []Bind{{"item", ref("SRC", "items"), true}}},
+		{Callee: "USE", Id: "USE", Binds: []Bind{{"zs", ref("SUB", "z"), false}}},
+	}
+	top.Ret = []Bind{{"zs", ref("SUB", "z"), false}, {"s", ref("USE", "s"), false}}
+	p.Pipelines = []*PipelineDef{sub, top}
+	p.Top = &CallDef{Callee: "TOPE", Id: "TOPE", Binds: []Bind{{"n", &Expr{Kind: ELit, Val: int64(plan.Draw(10000)), T: intT}, false}}}
+	return p
 }
